@@ -476,10 +476,13 @@ func (s *syncer) newOutput() (*RedisOutput, error) {
 			s.logger.Errorf("%s", err.Error())
 			return nil, errors.Join(ErrQuit, err)
 		}
-		err = s.updateCheckpoint(wait, localCheckpoint, []string{id1, id2})
+		cpRunId, err := s.updateCheckpoint(wait, localCheckpoint, []string{id1, id2})
 		if err != nil {
 			return nil, errors.Join(ErrRestart, err)
 		}
+		// the checkpoint keeps the run id it was written under; output.SetRunId re-keys it
+		// once the source has answered PSYNC
+		outputCfg.RunId = cpRunId
 		outputCfg.CheckpointName = localCheckpoint
 		if needsBisyncNamespace {
 			s.logger.Debugf("bisync checkpoint namespace : runid(%s), cpName(%s), redis(%v)", id1, localCheckpoint, s.cfg.Input.Addresses)
@@ -867,20 +870,36 @@ func deleteBisyncKeysInChunks(cli client.Redis, keys []string, chunkSize int) er
 	return errors.Join(errs...)
 }
 
-func (s *syncer) updateCheckpoint(wait usync.WaitCloser, localCheckpoint string, ids []string) error {
-	return util.RetryLinearJitter(wait.Context(), func() error {
+// updateCheckpoint migrates the checkpoint to localCheckpoint and returns the run id it is stored under.
+// A checkpoint written under the source's previous replication id (ids[1]) is not moved to the current id
+// here : only the source can tell, by granting PSYNC <previous id> <offset+1>, whether that position also
+// belongs to its current history (offset <= second_replid_offset).
+func (s *syncer) updateCheckpoint(wait usync.WaitCloser, localCheckpoint string, ids []string) (string, error) {
+	runId := ids[0]
+	err := util.RetryLinearJitter(wait.Context(), func() error {
 		cli, err := client.NewRedis(s.cfg.Output)
 		if err != nil {
 			return err
 		}
 		defer cli.Close()
 
-		err = checkpoint.UpdateCheckpoint(cli, localCheckpoint, ids)
+		cpIds := ids
+		_, cpRunId, err := checkpoint.GetCheckpointHash(cli, ids)
 		if err != nil {
-			s.logger.Errorf("update checkpoint : redis(%s), local(%s), ids(%v), error(%v)", s.cfg.Output.Address(), localCheckpoint, ids, err)
+			return err
+		}
+		if len(ids) > 1 && cpRunId != "" && cpRunId == ids[1] {
+			cpIds = []string{ids[1], ids[0]}
+		}
+		runId = cpIds[0]
+
+		err = checkpoint.UpdateCheckpoint(cli, localCheckpoint, cpIds)
+		if err != nil {
+			s.logger.Errorf("update checkpoint : redis(%s), local(%s), ids(%v), error(%v)", s.cfg.Output.Address(), localCheckpoint, cpIds, err)
 		}
 		return err
 	}, 5, time.Second*1, 0.3)
+	return runId, err
 }
 
 func choseKeyInSlots(prefix string, slots *config.RedisSlots) string {
